@@ -190,6 +190,7 @@ type sideMon struct {
 	replayedReset  map[uint16]int64  // stream -> event seq of a delivered reset request whose number had already been performed
 	fwdNoStream map[uint16]bool // a FORWARD-TSN named this stream when the endpoint had no such stream
 	fwdUMID  map[uint16]uint32 // highest unordered MID listed by an I-FORWARD-TSN delivered here, per stream
+	ackedBytes map[uint16]int // user bytes acknowledged (cumulatively or by gap block) per stream
 	heldHist []heldPoint // history of the queued-byte counter sum (value after each step in which it changed)
 	snapCwnd uint32
 	dlvInStep int
@@ -661,7 +662,13 @@ func (m *wireMon) commit(to int) {
 	sm.pendingAck = nil
 }
 
-func (m *wireMon) onAcked(side int, ti *tsnInfo) {}
+func (m *wireMon) onAcked(side int, ti *tsnInfo) {
+	sm := m.s[side]
+	if sm.ackedBytes == nil {
+		sm.ackedBytes = map[uint16]int{}
+	}
+	sm.ackedBytes[ti.sid] += ti.n
+}
 
 // onReadCall: the endpoint asks for the next packet => previous one fully processed.
 func (m *wireMon) onReadCall(side int) { m.commit(side) }
@@ -850,6 +857,9 @@ func (m *wireMon) onStep() {
 		if m.props["C11"] {
 			m.checkCounters(side)
 		}
+	}
+	if m.props["C15"] {
+		m.checkBufferedIdle()
 	}
 }
 
